@@ -12,6 +12,11 @@ fn ctx_tgt() -> Tgt {
     Tgt::Created { pk: 1, nonce: 0 }
 }
 
+/// a proxy that forwards to the probe: the probe then runs as a nested call
+fn proxy_tgt() -> Tgt {
+    Tgt::Created { pk: 3, nonce: 0 }
+}
+
 fn word_of_addr(a: &str) -> String {
     format!("0x{:0>64}", a.trim_start_matches("0x").to_lowercase())
 }
@@ -27,10 +32,13 @@ struct Exec {
     sender: String,
     txid: String,
     how: String,
+    /// the immediate caller the probe must have seen (the sender, or the proxy for a nested call)
+    caller: String,
 }
 
 fn last_ctx_exec(world: &World) -> (Option<Exec>, Vec<(String, String)>) {
     let ctx = ctx_tgt().resolve().unwrap();
+    let proxy = proxy_tgt().resolve();
     let mut last: Option<Exec> = None;
     let mut bad = Vec::new();
     let mut parked: HashMap<(String, u64), String> = HashMap::new();
@@ -70,13 +78,16 @@ fn last_ctx_exec(world: &World) -> (Option<Exec>, Vec<(String, String)>) {
                 if rc["contractAddress"].as_str().map(|x| x.to_lowercase()) == Some(ctx.clone()) {
                     deployed = true;
                 }
-                if deployed && rc["to"].as_str().map(|x| x.to_lowercase()) == Some(ctx.clone()) && rc["status"].as_str() == Some("0x1") {
+                let to = rc["to"].as_str().map(|x| x.to_lowercase());
+                let via_proxy = proxy.is_some() && to == proxy;
+                if deployed && (to == Some(ctx.clone()) || via_proxy) && rc["status"].as_str() == Some("0x1") {
                     let own_txid = if k == 0 {
                         txid.clone()
                     } else {
                         signed.and_then(|(a, n)| parked.remove(&(addr_s(a), n + k as u64))).unwrap_or_else(|| "<unknown>".into())
                     };
-                    last = Some(Exec { height: rec.height, ts, hash: stored.clone(), sender: rc["from"].as_str().unwrap_or("").to_lowercase(), txid: own_txid, how: format!("{}{}", r.call.method, if k > 0 { " (drained)" } else { "" }) });
+                    let sender = rc["from"].as_str().unwrap_or("").to_lowercase();
+                    last = Some(Exec { height: rec.height, ts, hash: stored.clone(), sender: sender.clone(), txid: own_txid, how: format!("{}{}{}", r.call.method, if k > 0 { " (drained)" } else { "" }, if via_proxy { " (nested)" } else { "" }), caller: if via_proxy { proxy.clone().unwrap_or_default() } else { sender } });
                 } else if k > 0 {
                     if let Some((a, n)) = signed {
                         parked.remove(&(addr_s(a), n + k as u64));
@@ -121,7 +132,9 @@ fn check_ctx(inst: &mut Inst, world: &World, prague: bool) -> Vec<(String, Strin
         (5, "GASPRICE", word_u64(0)),
         (6, "COINBASE", word_u64(0)),
         (7, "ORIGIN", word_of_addr(&e.sender)),
-        (8, "CALLER", word_of_addr(&e.sender)),
+        (8, "CALLER", word_of_addr(&e.caller)),
+        (18, "BLOCKHASH(n)", zero32()),
+        (19, "BLOCKHASH(n+1)", zero32()),
     ];
     // the supplied hash is also the hash the block is served with
     let served = served_hash(inst, n);
@@ -275,6 +288,8 @@ pub fn scenarios(tier: &str) -> Vec<Scenario> {
         m_block("B(deposit, call Ctx by p0)", vec![TxSpec::Deposit { pk: 1, ticker: "ordi".into(), amount: "0x2".into() }, call_ctx(0)]),
         m_block("B(fail, call Ctx by p2)", vec![TxSpec::Call { pk: 1, tgt: Tgt::s(), data: vec![4], len: DEFAULT_LEN }, call_ctx(2)]),
         m_block("B(call Ctx by p0, call Ctx by p2)", vec![call_ctx(0), call_ctx(2)]),
+        // the probe as a nested call (CALLER is the proxy, ORIGIN and the transaction id are the transaction's)
+        m_block("B(set, call proxy->Ctx by p2)", vec![s_set(0, 0, 1), TxSpec::Call { pk: 2, tgt: proxy_tgt(), data: vec![0], len: DEFAULT_LEN }]),
         m_block("B(T(s0,n0->Ctx))", vec![t_ctx(0)]),
         m_block("B(T(s0,n1->Ctx))", vec![t_ctx(1)]),
         m_block("B(deposit,withdraw)", vec![TxSpec::Deposit { pk: 1, ticker: "ordi".into(), amount: "0x5".into() }, TxSpec::Withdraw { pk: 1, ticker: "ordi".into(), amount: "0x1".into() }]),
@@ -284,7 +299,8 @@ pub fn scenarios(tier: &str) -> Vec<Scenario> {
         m_reorg(1, RTarget::Back(1)),
     ];
     let mut base = start_with_s();
-    base.extend(block(vec![TxSpec::Deploy { pk: 1, code: crate::asm::ctx_initcode(), len: DEFAULT_LEN }]));
+    let ctx_bytes = hex::decode(ctx_tgt().resolve().unwrap().trim_start_matches("0x")).unwrap();
+    base.extend(block(vec![TxSpec::Deploy { pk: 1, code: crate::asm::ctx_initcode(), len: DEFAULT_LEN }, TxSpec::Deploy { pk: 3, code: crate::asm::initcode(&crate::asm::proxy_runtime(&ctx_bytes)), len: DEFAULT_LEN }]));
     let mut opts = Opts::new("C19", "context");
     opts.nf_compare = false;
     opts.err_unchanged = false;
